@@ -791,6 +791,54 @@ fn test_gemm_prepack() {
     })
 }
 
+#[test]
+fn test_gemm_prepack_empty() {
+    #[derive(Clone, Debug)]
+    struct Case {
+        m: usize,
+        n: usize,
+        k: usize,
+    }
+    let cases = [
+        Case { m: 0, n: 15, k: 5 },
+        Case { m: 10, n: 0, k: 5 },
+        Case { m: 10, n: 15, k: 0 },
+        Case { m: 0, n: 0, k: 0 },
+    ];
+
+    cases.test_each_clone(|case| {
+        let Case { m, n, k } = case;
+
+        let mut rng = XorShiftRng::new(1234);
+        let a = NdTensor::<f32, 2>::rand([m, k], &mut rng);
+        let b = NdTensor::<f32, 2>::rand([k, n], &mut rng);
+
+        let gemm = GemmExecutor::new();
+
+        let packed_a = gemm.prepack_a(a.view());
+        assert_eq!(packed_a.rows(), m);
+        assert_eq!(packed_a.cols(), k);
+
+        let packed_b = gemm.prepack_b(b.view());
+        assert_eq!(packed_b.rows(), k);
+        assert_eq!(packed_b.cols(), n);
+
+        // When K is zero, the output is non-empty and is set to `C * beta`.
+        let mut result = NdTensor::full([m, n], 2.);
+        gemm.gemm(
+            result.data_mut().unwrap(),
+            GemmInputA::Packed(&packed_a),
+            GemmInputB::Packed(&packed_b),
+            GemmOptions {
+                beta: 0.5,
+                ..Default::default()
+            },
+        )
+        .unwrap();
+        assert_eq!(result, NdTensor::full([m, n], 1.));
+    })
+}
+
 // Simplified version of the im2col builder used by convolution code.
 //
 // This builds a mapping between elements of an image and a
